@@ -18,6 +18,39 @@ fn main() {
         debug_pdf_dump(&args[2]);
         return;
     }
+    if args[1] == "fuzzreplay" {
+        if args.len() < 4 {
+            usage();
+        }
+        let Ok(data) = std::fs::read(&args[3]) else {
+            eprintln!("cannot read {}", args[3]);
+            std::process::exit(2);
+        };
+        match cgtverif::fuzzing::run_target(&args[2], &data) {
+            None => {
+                eprintln!("unknown fuzz target {}", args[2]);
+                std::process::exit(2);
+            }
+            Some(cgtverif::fuzzing::FuzzOutcome::Ok) => {
+                println!("replay {}: property holds on this input", args[3]);
+                std::process::exit(0);
+            }
+            Some(cgtverif::fuzzing::FuzzOutcome::Known(f)) => {
+                println!("KNOWN-FINDING: {f} (fuzz input {})", args[3]);
+                std::process::exit(0);
+            }
+            Some(cgtverif::fuzzing::FuzzOutcome::Fail(m)) => {
+                println!("{m}");
+                let pid = match args[2].as_str() {
+                    "ledger" => "C01",
+                    "dsl_text" => "C13",
+                    _ => "C15",
+                };
+                println!("VIOLATION property={pid} replay={}", args[3]);
+                std::process::exit(1);
+            }
+        }
+    }
     if args[1] == "replay" {
         if args.len() < 3 {
             usage();
